@@ -170,6 +170,11 @@ def prepare_ops(spec, dev, tmp):
             path = op.get('path', '/p%d' % i)
             if op.get('size') is not None:
                 dev.fs.add(path, fast_pattern(seed + i, op['size']))
+            if op.get('stat_size') is not None:
+                # what STAT reports disagrees with what RECV delivers (procfs/sysfs files report 0; a file that grew in between)
+                if not hasattr(dev.fs, 'stat_override'):
+                    dev.fs.stat_override = {}
+                dev.fs.stat_override[path.encode('utf8')] = (0o100644, op['stat_size'], 1)
             a['path'] = path
         elif api == 'push':
             src = op.get('src', 'bytesio')
@@ -253,6 +258,14 @@ def run(spec, mode='sync', rec=None, chooser=None, keep_session=False, **core_kw
             lg.removeHandler(_FORMAT_ALL)
             lg.propagate = old_prop
     seed = spec.get('seed', 0)
+    if spec.get('ambient', True) and ('rtype' not in spec or 'debug_log' not in spec):
+        # ambient variation of the environment, derived from the seed unless the spec pins it: the container type bulk_read hands out
+        # and whether the application runs the library's loggers at DEBUG.  Neither may change any observable result.
+        h = (seed * 2654435761 + 97 * len(spec.get('ops', []))) & 0xFFFFFFFF
+        amb = dict(spec, ambient=False)
+        amb.setdefault('rtype', [None, 'bytearray', 'memoryview', 'array'][(h >> 5) % 4])
+        amb.setdefault('debug_log', (h >> 9) % 3 == 0)
+        return run(amb, mode, rec, chooser, keep_session, **core_kw)
     rr = RunResult()
     dev = build_device(spec, rec, chooser)
     tmp = tempfile.mkdtemp(prefix='scen-', dir=os.path.join(os.path.dirname(os.path.dirname(os.path.abspath(__file__))), '.work')) \
@@ -324,6 +337,46 @@ class _Raiser(object):
             raise RuntimeError('callback failure')
 
 
+def _as_async(cb, kind):
+    """The progress callback as an async API user may legitimately write it."""
+    if kind == 'obj':
+        class Obj(object):
+            async def __call__(self, path, n, total):
+                return cb(path, n, total)
+        return Obj()
+    if kind == 'forward':
+        async def inner(path, n, total):
+            return cb(path, n, total)
+        return lambda path, n, total: inner(path, n, total)       # a plain function that returns an awaitable
+
+    async def f(path, n, total):
+        return cb(path, n, total)
+    return f
+
+
+class _ShortReads(io.BytesIO):
+    """A source whose read(n) returns at most k bytes at a time (a throttling / progress wrapper): still every byte, in order."""
+
+    def __init__(self, data, k):
+        io.BytesIO.__init__(self, data)
+        self.k = k
+
+    def read(self, n=-1):
+        if n is None or n < 0:
+            return io.BytesIO.read(self, n)
+        return io.BytesIO.read(self, min(n, self.k))
+
+
+def _local(path, how):
+    """A local path in the form the caller chose: str, pathlib.Path or bytes."""
+    if how == 'pathlib':
+        import pathlib
+        return pathlib.Path(path)
+    if how == 'bytes':
+        return os.fsencode(path)
+    return path
+
+
 def run_op(s, op, a, tmp, i, rr):
     api = op['api']
     tkw = {k: op[k] for k in ('transport_timeout_s', 'read_timeout_s', 'timeout_s') if k in op}
@@ -364,6 +417,8 @@ def run_op(s, op, a, tmp, i, rr):
     log = []
     rr.extra.setdefault('cb', {})[i] = log
     cbf = _Raiser(log, 'base' if cb == 'raise_base' else (cb == 'raise')) if cb else None
+    if cbf is not None and s.mode == 'async':
+        cbf = _as_async(cbf, op.get('cb_kind', ('def', 'obj', 'forward')[(i + len(a.get('path', a.get('dpath', '')))) % 3]))
     if api == 'pull':
         if isinstance(op.get('dest'), list):      # ['raise', k]: a sink whose k-th write fails (local I/O error mid-transfer)
             dest = _FailingSink(op['dest'][1])
@@ -375,12 +430,34 @@ def run_op(s, op, a, tmp, i, rr):
             rr.extra.setdefault('pulled', {})[i] = dest.getvalue()
         else:
             p = os.path.join(tmp, 'dst%d.bin' % i)
-            o = s.call('pull', P(a['path']), p, progress_callback=cbf, _info=dict(i=i), **tkw)
+            how = op.get('local_as', 'str')
+            if how == 'fd':
+                target = os.open(p, os.O_WRONLY | os.O_CREAT | os.O_TRUNC, 0o600)      # open() accepts a file descriptor (and closes it)
+            else:
+                target = _local(p, how)
+            try:
+                o = s.call('pull', P(a['path']), target, progress_callback=cbf, _info=dict(i=i), **tkw)
+            finally:
+                if how == 'fd':
+                    try:
+                        os.close(target)
+                    except OSError:
+                        pass
             rr.extra.setdefault('pulled', {})[i] = open(p, 'rb').read() if os.path.exists(p) else None
         return o
     if api == 'push':
-        local = a['local'] if a.get('local') else io.BytesIO(a['data'])
         src_kind = op.get('src', 'bytesio')
+        if a.get('local'):
+            local = _local(a['local'], op.get('local_as', 'str')) if src_kind == 'path' else a['local']
+        elif op.get('src_short'):
+            local = _ShortReads(a['data'], op['src_short'])
+        else:
+            local = io.BytesIO(a['data'])
+        if op.get('src_offset') and not a.get('local'):
+            # the caller has already consumed a header from the stream: what is pushed is the rest
+            pre = bytes(op['src_offset'] % 251 for _ in range(op['src_offset']))
+            local = (_ShortReads(pre + a['data'], op['src_short']) if op.get('src_short') else io.BytesIO(pre + a['data']))
+            io.BytesIO.read(local, op['src_offset'])
         kw = dict(tkw)
         if 'st_mode' in op:
             kw['st_mode'] = op['st_mode']
@@ -533,6 +610,8 @@ def project_events(rr, spec, syms=False):
 
 # ------------------------------------------------------------------ random session specs
 BOUNDARY32 = [0, 1, 0x7FFF, 0x8000, 0xFFFF, 0x10000, 0x7FFFFFFF, 0x80000000, 0xFFFFFFFF]
+# 32-bit field values whose little-endian bytes spell a word of the protocol family (a mode / size / time that reads b'FAIL', ...)
+KEYWORD32 = [int.from_bytes(w, 'little') for w in (b'FAIL', b'DONE', b'DENT', b'STAT', b'DATA', b'OKAY', b'QUIT', b'CLSE', b'WRTE', b'RECV', b'SEND', b'LIST', b'OPEN', b'SYNC')]
 
 
 def gen_session(rng, idx, big=False, adversarial=False, ops_max=6, allow=('shell', 'exec_out', 'streaming_shell', 'root', 'reboot', 'stat', 'list', 'pull', 'push'),
@@ -552,23 +631,25 @@ def gen_session(rng, idx, big=False, adversarial=False, ops_max=6, allow=('shell
         elif api in ('root', 'reboot'):
             ops.append(dict(api=api))
         elif api == 'stat':
-            ops.append(dict(api='stat', path=rng.choice(['/a', '/sdcard/é', '/' + 'p' * 200, '/фото/\u20ac.jpg']), path_bytes=rng.random() < 0.3, st=[rng.choice(BOUNDARY32 + [rng.randrange(2 ** 32)]) for _ in range(3)],
+            ops.append(dict(api='stat', path=rng.choice(['/a', '/sdcard/é', '/' + 'p' * 200, '/фото/\u20ac.jpg']), path_bytes=rng.random() < 0.3, st=[rng.choice(BOUNDARY32 + KEYWORD32[:4] + [rng.randrange(2 ** 32)]) for _ in range(3)],
                             cuts=rng.choice(['whole', 'random', 'small', 'bytes1'])))
         elif api == 'list':
             ents = []
             for e in range(rng.choice([0, 1, 2, 5, 40])):
                 name = bytes(rng.randrange(1, 256) for _ in range(rng.choice([1, 2, 8, 255])))
-                ents.append([name.hex(), rng.choice(BOUNDARY32), rng.randrange(2 ** 32), rng.choice(BOUNDARY32)])
+                ents.append([name.hex(), rng.choice(BOUNDARY32 + KEYWORD32[:4]), rng.choice([rng.randrange(2 ** 32)] + KEYWORD32[:2]), rng.choice(BOUNDARY32 + KEYWORD32[:4])])
             ops.append(dict(api='list', path=rng.choice(['/d%d' % j, '/d%d/é€' % j, '/каталог%d' % j]), path_bytes=rng.random() < 0.3, entries=ents, cuts=rng.choice(['whole', 'random', 'small'])))
         elif api == 'pull':
             size = rng.choice([0, 1, 7, 8, 9, 4096, 65535, 65536, 65537, rng.randint(0, 200000)] + ([rng.randint(200000, 3000000)] if big else []))
             ops.append(dict(api='pull', path=rng.choice(['/p%d' % j, '/sdcard/é%da' % j, '/фото%d.jpg' % j]), path_bytes=rng.random() < 0.3, size=size, data_sizes=rng.choice([None, 'random']), cuts=rng.choice(['whole', 'random']) if size < 50000 else 'whole',
-                            dest=rng.choice(['bytesio', 'path']), cb=rng.choice([None, None, 'ok', 'raise'])))
+                            dest=rng.choice(['bytesio', 'path']), cb=rng.choice([None, None, 'ok', 'raise']), local_as=rng.choice(['str', 'str', 'pathlib', 'bytes', 'fd']),
+                            stat_size=rng.choice([None, None, None, 0, 1, size + 1])))
         elif api == 'push':
             chunk = min(65536, maxdata // 2)
             size = rng.choice([0, 1, chunk - 1, chunk, chunk + 1, maxdata - 9, maxdata, maxdata + 9, 2 * chunk + 1, rng.randint(0, 300000)] + ([rng.randint(300000, 3000000)] if big else []))
             ops.append(dict(api='push', path=rng.choice(['/q', '/sdcard/' + 'n' * rng.randint(1, 900), '/sdcard/résumé€.bin']), size=size, src=rng.choice(['bytesio', 'path']),
-                            st_mode=rng.choice([0o100644, 33272, 0xFFFFFFFF, 0]), mtime=rng.choice([1, 1500000000, 0xFFFFFFFF, 0]), cb=None))
+                            st_mode=rng.choice([0o100644, 33272, 0xFFFFFFFF, 0]), mtime=rng.choice([1, 1500000000, 0xFFFFFFFF, 0]), cb=rng.choice([None, None, 'ok']),
+                            local_as=rng.choice(['str', 'pathlib']), src_short=rng.choice([None, None, 1, 1000, 70000]), src_offset=rng.choice([0, 0, 0, 5])))
     spec = dict(seed=rng.randrange(1 << 30), maxdata=maxdata, rid=rng.choice(['plus', 'random', 'high', 'same']), frag=rng.choice(['whole', 'whole', 'random', 'empty']),
                 lid0=rng.choice([None, None, 2 ** 32 - 3, 2 ** 31 - 2, 65534]), ops=ops)
     if adversarial:
@@ -671,8 +752,10 @@ def sync_traces(rr, spec, inert=None, only=None):
                     tr.append(dict(ev='prx', id=r['id']))
             for w in svc.out:
                 tr.append(dict(ev='ptx', id=w['id'], bad=(w['id'] not in ('OKAY', 'FAIL', 'DATA', 'DONE', 'DENT', 'STAT'))))
+        # the total a callback is told: the size of the source (push) resp. what the device's STAT reported (pull)
+        told = op['stat_size'] if (api == 'pull' and op.get('stat_size') is not None) else size
         for (path, n, total) in rr.extra.get('cb', {}).get(i, []):
-            tr.append(dict(ev='cbk', n=n, total=total))
+            tr.append(dict(ev='cbk', n=n, total=min(total, 2 ** 30) if isinstance(total, int) and total >= 0 else -1, totalOk=(total == told)))
         # bad ids are those not valid at that point of the exchange: mark via the plan
         plan = op.get('plan') or {}
         if plan.get('bad_id'):
